@@ -6,7 +6,7 @@ from common import freephil, enc, dec, call_j, word_j, classify_runtime
 LEVEL = "proof"
 MODULE = "Phil.Props.C12"
 LEVEL_TEXT = "Lean theorems about the substitution model: the operational resolution equals a fuel-free denotational specification (nearest earlier definition, enclosing scopes outward, dotted and root-anchored names, last earlier match wins) for every environment, position and both modes on every parser output (resolveAt_eq_denote_parsed, parse_docIds, lexicalGet_eq_nearestEarlier); corollaries: later objects irrelevant, environment irrelevant when an earlier definition exists, single quotes and '$'-free words untouched, one unquoted variable takes the words / any mixture is one double-quoted word, resolution never runs out of fuel. Tied to /repo by a correspondence run of resolve_variables of every definition of generated documents x environments (one object per line and several per line, one-line scopes); the oracle reads 'earlier' from document positions of the generator's tree (not from primary ids) and evaluates the clauses on the implementation."
-LEVEL_NOTE = "os.environ is a parameter of the model. $a.b reads as variable a followed by '.b', as coded. Known edges on the unchanged tree (see DESIGN §7): triple-single-quoted text is substituted, disabled definitions serve as variable sources."
+LEVEL_NOTE = "os.environ is a parameter of the model. $a.b reads as variable a followed by '.b', as coded. Known edges on the unchanged tree (see DESIGN §7): triple-single-quoted text is substituted by the code and by the model (finding D70; the oracle reads ''' as single quotes and tags its failures on such definitions), disabled definitions serve as variable sources."
 TECHNIQUE = 'Lean 4 refinement of operational resolution to a denotational specification + differential correspondence + position-based reference oracle'
 RULE = ("documents of definitions and nested scopes (depth <= 3) whose words mix literals, $x, $(x), $(a.b), $(.a.b), \\$, all "
         "quote styles, references to scopes, later definitions, themselves and undefined names x environments that do or do not "
@@ -285,7 +285,16 @@ def run(ctx):
             ctx.count("outcome_" + (out[0] if out[0] == "ok" else out[2]))
         # ---- oracle
         for d, out in zip(defs, impl):
-            f = clauses(d, out, diff) or lookup_clause(root, d, out, env, diff, pos)
+            f = clauses(d, out, diff)
+            if f:
+                # covered by D70 only when the input is of that class AND nothing else is wrong: with the '''-words
+                # re-read as the code reads them (substitutable) the other clauses must hold
+                cls = ["D70"] if d70_class(d) and not clauses(d, out, diff, single=("'",)) else None
+                if cls:
+                    ctx.count("definitions_with_substituted_triple_single_quotes")
+                ctx.fail({"text": text, "env": env, "diff": diff, "definition": d.full_path()}, f, finding=cls)
+                continue
+            f = lookup_clause(root, d, out, env, diff, pos)
             if f:
                 ctx.fail({"text": text, "env": env, "diff": diff, "definition": d.full_path()}, f)
         if dense and not diff and pos is not None:
@@ -452,9 +461,17 @@ def lookup_clause(root, d, out, env, diff, pos):
     return None
 
 
-def clauses(d, out, diff):
+SINGLE_QUOTES = ("'", "'''")   # "never inside single quotes": one or three of them (finding D70: the code tests one only)
+
+
+def d70_class(d):
+    """finding class D70, a predicate on the INPUT: the definition has a '''-quoted word with an unescaped '$'"""
+    return any(w.quote_token == "'''" and w.value.count("$") > w.value.count("\\$") for w in d.words)
+
+
+def clauses(d, out, diff, single=SINGLE_QUOTES):
     ws = d.words
-    if all(w.quote_token == "'" or "$" not in w.value for w in ws):
+    if all(w.quote_token in single or "$" not in w.value for w in ws):
         want = ["ok", [word_j(w)[:2] + [None] for w in ws]]
         if out != want:
             return "words without '$' / in single quotes were not passed through untouched: %r" % (out,)
@@ -467,7 +484,7 @@ def clauses(d, out, diff):
             is_one_var = w.quote_token is None and (
                 (v.startswith("$(") and v.endswith(")") and v.count("$") == 1 and ")" not in v[2:-1]) or
                 (v.startswith("$") and v.count("$") == 1 and v[1:].replace("_", "a").isalnum() and not v[1:2].isdigit()))
-            if not is_one_var and "$" in v and w.quote_token != "'":
+            if not is_one_var and "$" in v and w.quote_token not in single:
                 if "\\$" in v and v.count("$") == v.count("\\$"):
                     return None  # only escaped dollars: no variables, passed through
                 if len(out[1]) != 1 or out[1][0][1] != "d1":
@@ -516,6 +533,23 @@ def metamorphic(rng, nodes, text, env, root, defs, impl):
             return "definition %s resolves without any environment (%r) yet its result depends on the environment" % (
                 d.full_path(), c)
     return None
+
+
+def finding_still_fails(f):
+    """replays the witness of a known finding on the implementation"""
+    w = f["witness"]
+    if f["id"] == "D70":
+        try:
+            root = freephil.parse(input_string=w["text"])
+            d = [x for x in all_defs(root) if x.full_path() == w["definition"]][0]
+            with env_as({}):
+                got = [[x.value, x.quote_token] for x in d.resolve_variables().words]
+        except RuntimeError:
+            return True          # '''$a''' must be passed through, not looked up
+        except Exception:        # a tree on which the witness does not even run: the finding covers nothing there
+            return False
+        return got != [list(x) for x in w["required"]]
+    return True
 
 
 def replay(payload):
